@@ -447,7 +447,7 @@ impl Client {
                         tx_packet_base_id: state.local_nonce & packet_id::MASK,
                         rx_packet_base_id: frame.nonce & packet_id::MASK,
 
-                        tx_bandwidth_limit: (self.config.endpoint_config.max_send_rate as u32).min(frame.max_receive_rate),
+                        tx_bandwidth_limit: (self.config.endpoint_config.max_send_rate.min(u32::MAX as usize) as u32).min(frame.max_receive_rate),
 
                         tx_alloc_limit: frame.max_receive_alloc as usize,
                         rx_alloc_limit: self.config.endpoint_config.max_receive_alloc as usize,
